@@ -16,7 +16,7 @@ N={
 "C08-r2-2":("failed Decode forgets names but keeps values","a failing Decode followed by a partial group on the SAME decoder object","NOT CLAIMED: re-use of a decoder object for a second Decode is outside every property (on the unchanged library a re-used decoder already rejects valid vectors with 'exist same metric'); see DESIGN section 5"),
 "C08-r2-3":("Base.Encode appends into a package-level pre-sized slice","two goroutines decoding at once with their own decoders","caught by the first version of the check (16 concurrent workers); also C16"),
 "C10-r2-1":("v2 order checked per group only","groups interleaved across a group boundary are accepted and re-encoded canonically","missed by the first C10 (its corpus held reference-valid vectors only); caught after every LIBRARY-accepted string of the edit workloads is round-tripped; C08 catches it too"),
-"C10-r2-2":("pooled encode buffer put back twice on Environmental.Encode's error path","Encode()/String() on an invalid *Environmental earlier, then two goroutines encoding concurrently","sequentially invisible: not visible to C10; caught by C16"),
+"C10-r2-2":("pooled encode buffer put back twice on Environmental.Encode's error path","Encode()/String() on an invalid *Environmental earlier, then two goroutines encoding concurrently","needs concurrency: caught by C16, and by C10 since its workers run concurrently (incl. the accepted-strings phase)"),
 "C10-r2-3":("cached Base vector not cleared when Temporal/Environmental.Decode assigns Ver","accepted Decode, Encode, then a SECOND accepted Decode with another version on the same object","NOT CLAIMED: re-use of a decoder object (incremental second Decode) is outside every property; see DESIGN section 5"),
 "C11-r2-1":("hard error wraps the deferred unsupported-metric error as cause","environmental decoder, a garbage metric name followed later by a hard defect: two sentinels match","caught by the first version of the check"),
 "C11-r2-2":("v2 Decode splits the TrimRight'ed vector but compares the untrimmed one","v2 vector ending in CR/LF is reported as misordered","caught by the first version of the check"),
